@@ -103,33 +103,132 @@ DUR = {"time.Nanosecond": 1, "time.Microsecond": 10 ** 3, "time.Millisecond": 10
        "time.Minute": 60 * 10 ** 9, "time.Hour": 3600 * 10 ** 9}
 
 
-def extract_constants(repo):
-    """Constants of safemap.go / cache.go the models and generators depend on.  Fails loudly
-    (ValueError) when the source no longer has the expected shape."""
-    sm = open(os.path.join(repo, "core/collection/safemap.go")).read()
-    ca = open(os.path.join(repo, "core/collection/cache.go")).read()
+def _go_sources(repo):
+    """All non-test Go files of core/collection, comments removed (constants may live in any of them)."""
+    d = os.path.join(repo, "core/collection")
+    txt = {}
+    for f in sorted(os.listdir(d)):
+        if f.endswith(".go") and not f.endswith("_test.go") and not f.startswith("zz_verif"):
+            t = open(os.path.join(d, f)).read()
+            t = re.sub(r"/\*.*?\*/", " ", t, flags=re.S)
+            t = re.sub(r"//[^\n]*", "", t)
+            txt[f] = t
+    return txt
 
-    def need(pat, src, what):
-        m = re.search(pat, src)
+
+_DUR_RE = re.compile(r"time\.(Nanosecond|Microsecond|Millisecond|Second|Minute|Hour)\b")
+
+
+def _const_expr(name, src, what, depth=0):
+    """Integer value (durations in ns) of the package-level constant `name`: its defining expression
+    may be a literal, another constant of the package, a time.* unit, or +,-,*,<<,() of those, with
+    or without a type (`x = 300`, `x int = 3 * 100`, `x = time.Second`).  ValueError otherwise."""
+    m = re.search(r"(?m)^\s*(?:const\s+)?%s\b(?:\s+[\w.]+)?\s*=\s*([^\n;]+)" % re.escape(name), src)
+    if not m or depth > 6:
+        raise ValueError("C16 constants: cannot find %s" % what)
+    return _eval_expr(m.group(1).strip(), src, what, depth)
+
+
+def _go_int_expr(e):
+    """Go integer constant expression with Go's precedences (* / % << >> & bind tighter than + - | ^)."""
+    toks = re.findall(r"0[xX][0-9a-fA-F]+|\d+|<<|>>|[-+*/%()&|^]", e)
+    if "".join(toks) != re.sub(r"\s+", "", e):
+        raise ValueError(e)
+    pos = [0]
+
+    def peek():
+        return toks[pos[0]] if pos[0] < len(toks) else None
+
+    def nxt():
+        pos[0] += 1
+        return toks[pos[0] - 1]
+
+    def atom():
+        t = nxt()
+        if t == "(":
+            v = add()
+            if nxt() != ")":
+                raise ValueError(e)
+            return v
+        if t == "-":
+            return -atom()
+        if t == "+":
+            return atom()
+        return int(t, 0)
+
+    def mul():
+        v = atom()
+        while peek() in ("*", "/", "%", "<<", ">>", "&"):
+            o = nxt()
+            w = atom()
+            v = {"*": v * w, "/": int(v / w) if w else 0, "%": v % w if w else 0, "<<": v << w, ">>": v >> w, "&": v & w}[o]
+        return v
+
+    def add():
+        v = mul()
+        while peek() in ("+", "-", "|", "^"):
+            o = nxt()
+            w = mul()
+            v = {"+": v + w, "-": v - w, "|": v | w, "^": v ^ w}[o]
+        return v
+    v = add()
+    if pos[0] != len(toks):
+        raise ValueError(e)
+    return v
+
+
+def _eval_expr(e, src, what, depth=0):
+    e = _DUR_RE.sub(lambda m: str(DUR["time." + m.group(1)]), e)
+    e = re.sub(r"\b(?:time\.Duration|int64|int|uint|uint64|uint32|int32)\s*\(", "(", e)
+    e = re.sub(r"\b([A-Za-z_]\w*)\b", lambda m: str(_const_expr(m.group(1), src, what, depth + 1)), e)
+    e = e.replace("_", "")
+    try:
+        v = _go_int_expr(e)
+    except Exception:
+        raise ValueError("C16 constants: cannot evaluate %s (%s)" % (what, e))
+    if not isinstance(v, int):
+        raise ValueError("C16 constants: %s is not an integer" % what)
+    return v
+
+
+def extract_constants(repo):
+    """Constants of core/collection the models and generators depend on (SafeMap thresholds, the cache's
+    wheel parameters, its expiry deviation, whether a rewrite refreshes its timer with MoveTimer).
+    Follows harmless rewrites: the constants may sit in any file of the package, be typed, be
+    arithmetic expressions or named after one another; NewCache's NewTimingWheel call may name its
+    interval.  Fails loudly (ValueError) when the source no longer has a shape it understands -
+    the runner then searches for a failing input instead of trusting stale constants."""
+    files = _go_sources(repo)
+    src = "\n".join(files.values())
+    ca = files.get("cache.go", src)
+
+    def need(pat, text, what, flags=0):
+        m = re.search(pat, text, flags)
         if not m:
             raise ValueError("C16 constants: cannot find %s" % what)
         return m
 
     vals = {}
-    vals["copyThreshold"] = int(need(r"\bcopyThreshold\s*=\s*(\d+)", sm, "copyThreshold").group(1))
-    vals["maxDeletion"] = int(need(r"\bmaxDeletion\s*=\s*(\d+)", sm, "maxDeletion").group(1))
-    vals["slots"] = int(need(r"\bslots\s*=\s*(\d+)", ca, "slots").group(1))
-    dev = need(r"\bexpiryDeviation\s*=\s*(\d*)\.(\d+)", ca, "expiryDeviation")
+    vals["copyThreshold"] = _const_expr("copyThreshold", src, "copyThreshold")
+    vals["maxDeletion"] = _const_expr("maxDeletion", src, "maxDeletion")
+    dev = need(r"(?m)^\s*(?:const\s+)?expiryDeviation\b(?:\s+[\w.]+)?\s*=\s*(\d*)\.(\d+)\s*$", src, "expiryDeviation")
     vals["dev_num"] = int((dev.group(1) or "0") + dev.group(2))
     vals["dev_den"] = 10 ** len(dev.group(2))
-    tw = need(r"NewTimingWheel\(\s*(?:(\d+)\s*\*\s*)?(time\.\w+)\s*,\s*slots\b", ca, "NewTimingWheel(interval, slots, ...)")
-    if tw.group(2) not in DUR:
-        raise ValueError("C16 constants: unknown duration %s" % tw.group(2))
-    vals["interval_ns"] = int(tw.group(1) or 1) * DUR[tw.group(2)]
-    m = re.search(r"func \(c \*Cache\) SetWithExpire\(.*?\n}\n", ca, re.S)
-    if not m:
-        raise ValueError("C16 constants: cannot find SetWithExpire")
-    vals["rewrite_moves"] = "timingWheel.MoveTimer(" in m.group(0)
+    # the wheel NewCache builds: NewTimingWheel(<interval>, <slots>, <callback>)
+    nc = need(r"func NewCache\(.*?\n}\n", src, "NewCache", re.S).group(0)
+    tw = need(r"NewTimingWheel\(\s*([^,]+?)\s*,\s*([^,]+?)\s*,", nc, "NewTimingWheel(interval, slots, ...) in NewCache")
+    vals["interval_ns"] = _eval_expr(tw.group(1), src, "the cache wheel's interval")
+    vals["slots"] = _eval_expr(tw.group(2), src, "the cache wheel's slots")
+    # SetWithExpire and the Cache methods it calls (a helper may have been split off)
+    text = need(r"func \(\w+ \*Cache\) SetWithExpire\(.*?\n}\n", src, "SetWithExpire", re.S).group(0)
+    followed = {"SetWithExpire"}
+    for _ in range(3):
+        for name in sorted(set(re.findall(r"\b\w+\.(\w+)\(", text)) - followed):
+            followed.add(name)
+            h = re.search(r"func \(\w+ \*Cache\) %s\(.*?\n}\n" % re.escape(name), src, re.S)
+            if h:
+                text += h.group(0)
+    vals["rewrite_moves"] = ".MoveTimer(" in text
     return vals
 
 
